@@ -6,7 +6,7 @@ ROOT = os.path.dirname(os.path.dirname(os.path.abspath(__file__)))
 # id -> (technique, level text, level_note, design_ref, has_fuzz)
 CHECKS = {
  "C17": ("property-based testing + exhaustive enumeration (all 2^32 differences from 7 bases, both serial types) against RFC 1982 on wide integers; metamorphic translation-invariance of the users' decisions (SOA serial bump, IXFR up-to-date decision of the server, acceptance of IXFR streams by the XFR client, signature validity periods)",
-         "Generated pairs/addends with boundary bias are checked against an independent RFC 1982 reference (comparison and every comparison operator, antisymmetry, add > self from both sides, translation invariance, associativity, Timestamp agreement, YYYYMMDDHHmmSS value, Timestamp::to_system_time congruence/nearest era/order) for base::Serial, rdata::dnssec::Timestamp and the new-API new::base::Serial (inc up to 2^31-1); a multi-threaded sweep covers every difference b-a for several bases (complete in the thorough tier for both serial types; in the quick tier a 1/8 slice plus the windows at 0, 2^31 and 2^32) - for a function that depends only on b-a this is close to exhaustive. The decisions the anchored code takes with serials are checked too: commit(bump_soa_serial) must produce the RFC 1982 successor at every boundary; the XFR middleware's IXFR answer and the XFR client's handling of that answer (XfrResponseInterpreter + ZoneUpdater: accept/reject stage, update kinds, finished state) must be invariant under adding the same amount to all serials involved (reference exchange far from boundaries vs the same exchange at/over the 2^31 and 2^32 boundaries); the signing entry points must accept exactly the RFC 1982-valid inception/expiration periods, translation-invariantly.",
+         "Generated pairs/addends with boundary bias are checked against an independent RFC 1982 reference (comparison and every comparison operator, antisymmetry, add > self from both sides, translation invariance, associativity, Timestamp agreement, YYYYMMDDHHmmSS value, Timestamp::to_system_time congruence/nearest era/order, Serial::from(jiff::Timestamp) additive and order-preserving across 1970 and 2106) for base::Serial, rdata::dnssec::Timestamp and the new-API new::base::Serial (inc up to 2^31-1); a multi-threaded sweep covers every difference b-a for several bases (complete in the thorough tier for both serial types; in the quick tier a 1/8 slice plus the windows at 0, 2^31 and 2^32) - for a function that depends only on b-a this is close to exhaustive. The decisions the anchored code takes with serials are checked too: commit(bump_soa_serial) must produce the RFC 1982 successor at every boundary; the XFR middleware's IXFR answer (record multiset, first/last record and the order of the SOA records that frame the difference sequences, for histories of one to three diffs) and the XFR client's handling of that answer (XfrResponseInterpreter + ZoneUpdater: accept/reject stage, update kinds, finished state, resulting serial) must be invariant under adding the same amount to all serials involved (reference exchange far from boundaries vs the same exchange at/over the 2^31 and 2^32 boundaries); the signing entry points must accept exactly the RFC 1982-valid inception/expiration periods, translation-invariantly.",
          "Trusts rustc, proptest, the 40-line reference in harness/src/refimpl/serial.rs and the C10 harness pieces (zone model, sender driver, receiver driver) reused by the users-* sub-checks. Serial::add with addend >= 2^31 and new Serial::inc with a negative number panic by contract and are not generated. Version::next (zonetree) is private and covered only via Serial::add(1) and the commit path. The new-API Timestamp type is not exported and therefore not reachable. The IXFR checks demand only translation invariance, not RFC 1995 behaviour (C10's business).",
          "DESIGN.md \u00a74 C17; notes/C17.md"),
 }
